@@ -571,9 +571,11 @@ def rule_sarif(ctx):
     if fn is None:
         return
     env = {}
-    for n in walk(fn["body"]):
+    order = {}
+    for i, n in enumerate(walk(fn["body"])):
         if n["k"] == "Local" and n["pat"]["k"] == "PIdent" and n["init"] is not None:
             env.setdefault(n["pat"]["name"], []).append(n["init"])
+            order[id(n["init"])] = i
     so = env.get("stdout_writer", [None])[0]
     sa = env.get("sarif_writer", [None])[0]
     if so is None or sa is None:
@@ -588,9 +590,13 @@ def rule_sarif(ctx):
             for a in args:
                 a = a.lstrip("&")
                 # resolve local copies:  let allow_list = options.allow_list.clone();
+                # (the binding in force where this writer is built: the last one before it)
                 for name, inits in env.items():
                     if a == name:
-                        a = render(strip(inits[-1]))
+                        before = [x for x in inits if order[id(x)] < order.get(id(scope_node), 1 << 30)] or inits
+                        a = render(strip(before[-1]))
+                        if a.endswith(".clone()"):
+                            a = a[:-len(".clone()")]
                 a2.append(a)
             res.append((f, tuple(a2)))
         return sorted(res)
@@ -599,6 +605,9 @@ def rule_sarif(ctx):
     ctx.table("stdout filters", [str(x) for x in n1])
     ctx.table("sarif filters", [str(x) for x in n2])
     ctx.check(R, "main/same-filters", n1 == n2 and len(n1) >= 3, "stdout: %s ; sarif: %s" % (n1, n2), site(MAIN, sa))
+    # the option fields the filters read are not changed between the two writers
+    muts = [render(x) for x in walk(fn["body"]) if (x["k"] == "Ref" and x.get("mut") and render(strip(x["e"])).replace(" ", "").startswith("options")) or ((x["k"] in ("Assign", "AssignOp") or (x["k"] == "Binary" and x.get("op", "").endswith("=") and x["op"] not in ("==", "!=", "<=", ">="))) and render(strip(x["l"])).replace(" ", "").startswith("options."))]
+    ctx.check(R, "main/options-not-modified", not muts, "options is modified in main: %s" % muts[:3], site(MAIN, fn))
     want = {"filter_by_level", "filter_by_file", "filter_by_id"}
     ctx.check(R, "main/all-three-filters-installed", {f for f, _ in n1} == want, "installed: %s" % sorted({f for f, _ in n1}), site(MAIN, so))
     ctx.check(R, "main/stdout-writer-caches", "CachedStdoutWriter::new" in render(b1), render(b1)[:80], site(MAIN, so))
